@@ -128,6 +128,14 @@ class Effects:
             return {'fresh'}
         if isinstance(e, ast.IfExp):
             return self.classify(e.body, env, fi, env_types) | self.classify(e.orelse, env, fi, env_types)
+        if isinstance(e, ast.Call) and isinstance(e.func, ast.Name) and e.func.id == 'getattr' and len(e.args) >= 2:
+            # getattr(obj, name[, default]): the attribute itself, not a copy of it (the attribute's name may only be known at run time)
+            nm = e.args[1].value if isinstance(e.args[1], ast.Constant) and isinstance(e.args[1].value, str) else '*'
+            if nm != '*':
+                return self.classify(ast.copy_location(ast.Attribute(value=e.args[0], attr=nm, ctx=ast.Load()), e), env, fi, env_types) \
+                    | (self.classify(e.args[2], env, fi, env_types) - {'fresh'} if len(e.args) > 2 else set())
+            base = self.classify(e.args[0], env, fi, env_types)
+            return {(c + '.*') if (c.startswith('param:') and '.' not in c) else c for c in base}
         if isinstance(e, ast.Call):
             callee, kind = self.resolve_call(fi, e, env_types)
             if callee is not None and kind != 'ctor':
